@@ -60,7 +60,7 @@ def gen_saturated(tier, rng, prefix, count):
     cancellation / a free worker; every gate is opened by the second thread"""
     out = []
     for i in range(count):
-        v = rng.choice(["try", "cancel_task", "cancel_pool", "backpressure"])
+        v = ["try", "cancel_task", "cancel_pool", "backpressure"][i % 4]
         if v == "try":
             ths = [["D1,0,1", "D2", "T3", "Y4", "/", "R1", "R2", "r3", "r4"], ["/", "G1"]]
             o = dict(expect_res_0_2="b0", expect_res_0_3="b0")
@@ -87,7 +87,7 @@ def gen_expansion(tier, rng, prefix, count):
         n = cap + 1
         subs = ["D%d,0,1" % (k + 1) for k in range(n)]
         reads = ["R%d" % (k + 1) for k in range(n)]
-        v = rng.choice(["highwater", "expire", "twobursts", "race", "busy_fire"])
+        v = ["highwater", "expire", "twobursts", "race", "busy_fire"][i % 5]
         if v == "race":
             # two submitters compete for the last expansion slot while the queue is full
             pre = ["D%d,0,1" % (k + 1) for k in range(cap)]
@@ -127,7 +127,7 @@ def gen_stop(tier, rng, prefix, count):
     """Stop with work in flight: busy / idle / expiring expanded workers, queued tasks, a pool never started"""
     out = []
     for i in range(count):
-        v = rng.choice(["inflight", "notstarted", "expanded_idle", "expanded_busy", "twice"])
+        v = ["inflight", "notstarted", "expanded_idle", "expanded_busy", "twice"][i % 5]
         if v == "inflight":
             ths = [["D1,0,1", "D2", "/", "X", "/", "R1", "R2"], ["/", "G1", "/"]]
             o = dict(workers=1, limit=0, autostart=1)
@@ -169,7 +169,7 @@ def gen_race_stop(tier, rng, prefix, count):
 
 def gen_c04(tier, rng):
     return (gen_basic(tier, rng, "a", scale(tier, 24, 200), stop=False) + gen_basic(tier, rng, "b", scale(tier, 16, 150), stop=True)
-            + gen_saturated(tier, rng, "s", scale(tier, 8, 60)))
+            + gen_saturated(tier, rng, "s", scale(tier, 8, 60)) + gen_stop(tier, rng, "x", scale(tier, 10, 80)))
 
 def gen_c08(tier, rng):
     return gen_stop(tier, rng, "a", scale(tier, 30, 250)) + gen_basic(tier, rng, "b", scale(tier, 12, 100), stop=True)
